@@ -213,6 +213,15 @@ func (i *interpreter) newMapIter(m *smap, site string) *mapIter {
 			rest = append(rest[:c:c], rest[c+1:]...)
 		}
 		it.order = append(it.order, rest[0])
+	} else if n >= 2 && i.mapOrderBig && i.inInit == 0 {
+		i.usedMapOrder = true
+		i.mapRangesForked++
+		it.order = append([]*mapEntry(nil), live...)
+		if i.choose(2, "maporder(2 orders)@"+site) == 1 {
+			for a, b := 0, len(it.order)-1; a < b; a, b = a+1, b-1 {
+				it.order[a], it.order[b] = it.order[b], it.order[a]
+			}
+		}
 	} else {
 		if n >= 2 {
 			i.mapRangesFixed++
